@@ -182,6 +182,8 @@ func c10Exec(c *core.Ctx, op string, t reflect.Type, shapes [][]int, lays []stri
 		}
 		if !nonC {
 			viol("refused-contiguous", "a result", m)
+		} else if c.Prop == "C16" {
+			c.Refused(call.name + "|colmajor") // C16 lets an operation refuse a column-major operand
 		} else {
 			// operands of any layout are to be read by logical content: a refusal because of a layout is a violation here
 			viol("refused-layout", "a result", m)
@@ -205,11 +207,12 @@ func c10Exec(c *core.Ctx, op string, t reflect.Type, shapes [][]int, lays []stri
 	}
 }
 
-func rotLayouts(first string, k int, rot int) []string {
+func rotLayouts(c *core.Ctx, first string, k int, rot int) []string {
+	rotPool := operandLayouts(c)
 	lays := make([]string, k)
 	lays[0] = first
 	for i := 1; i < k; i++ {
-		lays[i] = gen.RowLayouts[(rot+i*2)%len(gen.RowLayouts)]
+		lays[i] = rotPool[(rot+i*2)%len(rotPool)]
 	}
 	return lays
 }
@@ -229,7 +232,7 @@ func c10Concat(c *core.Ctx, t reflect.Type, lay string) {
 				}
 				shapes[0] = model.CopyInts(shape)
 				for _, firstAt := range []int{0, k - 1} {
-					lays := rotLayouts(lay, k, rot)
+					lays := rotLayouts(c, lay, k, rot)
 					rot++
 					if firstAt != 0 {
 						lays[0], lays[firstAt] = lays[firstAt], lays[0]
@@ -265,7 +268,7 @@ func c10Concat(c *core.Ctx, t reflect.Type, lay string) {
 					s[hax] = 1 + (shape[hax]+i)%3
 					shapes[i] = s
 				}
-				lays := rotLayouts(lay, k, rot)
+				lays := rotLayouts(c, lay, k, rot)
 				rot++
 				want := func(ms []*model.ND) (*model.ND, bool) { return model.Concat(hax, ms...) }
 				c10Exec(c, "Concat", t, shapes, lays, hax, c10Call{"Hstack", func(ds []*tensor.Dense) (tensor.Tensor, error) { return ds[0].Hstack(ds[1:]...) }}, want, true, "")
@@ -276,7 +279,7 @@ func c10Concat(c *core.Ctx, t reflect.Type, lay string) {
 				s[0] = 1 + (shape[0]+i)%3
 				shapes[i] = s
 			}
-			lays := rotLayouts(lay, k, rot)
+			lays := rotLayouts(c, lay, k, rot)
 			rot++
 			want := func(ms []*model.ND) (*model.ND, bool) { return model.Concat(0, ms...) }
 			// Vstack of 1-D operands is refused by documentation: frame only
@@ -299,7 +302,7 @@ func c10Stack(c *core.Ctx, t reflect.Type, lay string) {
 				for i := range shapes {
 					shapes[i] = model.CopyInts(shape)
 				}
-				lays := rotLayouts(lay, k, rot)
+				lays := rotLayouts(c, lay, k, rot)
 				rot++
 				axis := axis
 				want := func(ms []*model.ND) (*model.ND, bool) { return model.Stack(axis, ms...) }
